@@ -1,6 +1,7 @@
 import SR.Proofs.Checker.FullF
 import SR.Checker.FullSched
 import SR.Proofs.Checker.FullReplay
+import SR.Proofs.Checker.FullG
 import SR.Props.C01
 import SR.Props.C02
 /-!
@@ -95,6 +96,17 @@ theorem C05_full_join (k : Nat) (hk : 0 < k) (fs : List FStep) (hex : allExited 
   refine ⟨List.eq_nil_of_length_eq_zero ?_, List.eq_nil_of_length_eq_zero ?_⟩
   · rw [← inv.len, hft]; rfl
   · rw [← inv.awlen, haw]; rfl
+
+/-- **Never stuck** (the market's no-lost-wake-up theorem, composed): at every moment of every run, as long as some worker
+    thread is still there, either a worker that is RUNNING has an enabled step (continue with its job, take the next job
+    from its deque, or call `pop`), or a waiting worker has been NOTIFIED and can wake.  The situation "everybody waits
+    on the condition variable and nobody will ever call `notify`" does not occur.  (That the operating system then
+    actually schedules such a worker is the fairness assumption; with it and `C05_bounded_work` every run ends.) -/
+theorem C05_full_never_stuck (k : Nat) (fs : List FStep) (h : ¬ allExited (frun P k fs).1) :
+    (∃ w f r, (frun P k fs).1.m.pcs[w]? = some Pc.running ∧ fstep P (frun P k fs).1 f = some r ∧
+        (f = .pop w ∨ f = .take w 0 ∨ f = .evalProp w false)) ∨
+    (∃ w r, (frun P k fs).1.m.pcs[w]? = some (Pc.parked true) ∧ fstep P (frun P k fs).1 (.wake w) = some r) :=
+  not_stuck (P := P) _ (frunFrom_inv (P := P) fs (finit P k) (finv_init P k)) h
 
 /-- **C01 for the multi-threaded checker.**  All workers gone, no early exit (no stop, no depth limit hit, not
     everything discovered before the end), no fingerprint collision among reachable states: the evaluated states are
